@@ -41,6 +41,9 @@ def check(ctx: Ctx):
     from . import c07
     c07.check_overlaps(ctx)
     c07.check_matcher_metric(ctx)
+    from ..rules import collections as _colx
+
+    _colx.check_list_appends(ctx)
     ctx.expect("METRIC", 4)
     ctx.expect("STRICT", 1)
     ctx.expect("PATHCOUNT", 3)
